@@ -32,9 +32,9 @@ func (v *recView) SetContent(x, y int, ch rune, comb []rune, st tcell.Style) {
 		v.grid[[2]int{x, y}] = ch
 	}
 }
-func (v *recView) Size() (int, int)          { return v.w, v.h }
-func (v *recView) Resize(x, y, w, h int)     {}
-func (v *recView) Clear()                    { v.Fill(' ', tcell.StyleDefault) }
+func (v *recView) Size() (int, int)      { return v.w, v.h }
+func (v *recView) Resize(x, y, w, h int) {}
+func (v *recView) Clear()                { v.Fill(' ', tcell.StyleDefault) }
 func (v *recView) Fill(ch rune, st tcell.Style) {
 	for y := 0; y < v.h; y++ {
 		for x := 0; x < v.w; x++ {
